@@ -182,15 +182,24 @@ def _py_digest():
 # ------------------------------------------------------------------------------------------------------------
 # the runs
 # ------------------------------------------------------------------------------------------------------------
-def _product(stochastic_dates, T=1.0):
+def _product(stochastic_dates, T=1.0, multi=False):
     from rpylib.product.product import Product
-    from rpylib.product.underlying import Spot
+    from rpylib.product.underlying import Spot, Mean
     from rpylib.product.payoff import Forward, PayoffDates
 
     pay = Forward(strike=0.0)
     if stochastic_dates:
         pay.payoff_dates_type = PayoffDates.STOCHASTIC
-    return Product(payoff_underlying=Spot(), payoff=pay, maturity=T)
+    return Product(payoff_underlying=Mean() if multi else Spot(), payoff=pay, maturity=T)
+
+
+def _copula_model():
+    """2-d Clayton copula of two exponential HEM margins, both with a Brownian component (continuous payoff values)"""
+    from . import workloads as W
+
+    m1 = {"family": "HEM", "params": {"sigma": 0.15, "p": 0.6, "eta1": 25.0, "eta2": 30.0, "intensity": 4.0}, "exp": True, "spot": 100.0, "r": 0.03, "d": 0.0}
+    m2 = {"family": "HEM", "params": {"sigma": 0.2, "p": 0.4, "eta1": 20.0, "eta2": 18.0, "intensity": 3.0}, "exp": True, "spot": 80.0, "r": 0.03, "d": 0.0}
+    return W.build_copula_model({"margins": [m1, m2], "copula": {"kind": "clayton", "theta": 1.5, "eta": 0.4}})
 
 
 def do_run(spec):
@@ -207,7 +216,7 @@ def do_run(spec):
     fixed = {"bs": {"family": "BS", "params": {"sigma": 0.25}, "exp": True, "spot": 100.0, "r": 0.03, "d": 0.01},
              "hem": {"family": "HEM", "params": {"sigma": 0.15, "p": 0.6, "eta1": 25.0, "eta2": 30.0, "intensity": 4.0}, "exp": True, "spot": 100.0, "r": 0.03, "d": 0.0},
              "merton": {"family": "MERTON", "params": {"sigma": 0.1, "mu_j": 0.02, "sigma_j": 0.1, "intensity": 3.0}, "exp": True, "spot": 50.0, "r": 0.02, "d": 0.0}}
-    product = _product(spec.get("stochastic_dates", False))
+    product = _product(spec.get("stochastic_dates", False), multi=spec["process"] == "copula")
     if spec["engine"] == "standard":
         from rpylib.montecarlo.configuration import ConfigurationStandard
         from rpylib.montecarlo.standard.engine import Engine
@@ -218,6 +227,12 @@ def do_run(spec):
             from rpylib.process.markovchain.markovchain import MarkovChainProcess
 
             proc = MarkovChainProcess(model=model, method=C.sampling_method("BINARYSEARCHTREEADAPTED1D"), grid=grid)
+        elif spec["process"] == "copula":
+            from rpylib.process.markovchain.markovchainlevycopula import MarkovChainLevyCopula
+
+            model = _copula_model()
+            grid = G.build_grid({"ctor": "fixed", "dim": 2, "h": 0.06, "n": 7}, model)
+            proc = MarkovChainLevyCopula(levy_copula_model=model, grid=grid, method=C.sampling_method("BINARYSEARCHTREEADAPTED"))
         else:
             proc = LevyProcess(W.build_model(fixed[spec["process"]]))
         conf = ConfigurationStandard(mc_paths=spec["paths"], seed=spec.get("seed"), nb_of_processes=spec["workers"])
@@ -229,11 +244,18 @@ def do_run(spec):
         from rpylib.montecarlo.multilevel.engine import Engine
         from rpylib.process.coupling.couplingmarkovchain import CouplingMarkovChain
 
-        model = W.build_model(fixed["hem"])
-        grid = G.build_grid({"ctor": "fixed", "dim": 1, "h": 0.1, "n": 9}, model)
-        cp = CouplingMarkovChain(model=model, method=C.sampling_method("BINARYSEARCHTREEADAPTED1D"), grid=grid)
-        conf = ConfigurationMultiLevel(convergence_rates=ConvergenceRates(alpha=1.0, beta=2.0, gamma=1.0), initial_level=2,
-                                       maximum_level=3, initial_mc_paths=spec["paths"], seed=spec.get("seed"), nb_of_processes=spec["workers"])
+        if spec["process"] == "copula":
+            from rpylib.process.coupling.couplinglevycopula import CouplingProcessLevyCopula
+
+            model = _copula_model()
+            grid = G.build_grid({"ctor": "fixed", "dim": 2, "h": 0.12, "n": 5}, model)
+            cp = CouplingProcessLevyCopula(levy_copula_model=model, grid=grid, method=C.sampling_method("BINARYSEARCHTREEADAPTED"))
+        else:
+            model = W.build_model(fixed["hem"])
+            grid = G.build_grid({"ctor": "fixed", "dim": 1, "h": 0.1, "n": 9}, model)
+            cp = CouplingMarkovChain(model=model, method=C.sampling_method("BINARYSEARCHTREEADAPTED1D"), grid=grid)
+        conf = ConfigurationMultiLevel(convergence_rates=ConvergenceRates(alpha=1.0, beta=2.0, gamma=1.0), initial_level=2 if spec["process"] != "copula" else 1,
+                                       maximum_level=3 if spec["process"] != "copula" else 2, initial_mc_paths=spec["paths"], seed=spec.get("seed"), nb_of_processes=spec["workers"])
         eng = Engine(conf, cp)
         st = eng.price_with_constant_mc_paths_and_level(product) if spec["engine"] == "mlmc-fixed" else eng.price(product, spec.get("rmse", 0.5))
         levels, fine = [], []
